@@ -253,7 +253,7 @@ func checkDeferredOpt(rc *core.RunCtx, cfg Cfg, out *Out, orderMatters bool) (*d
 		all = append(all, p.Errors...)
 	}
 	if d := CompareErrs(ref.Errors, all); d != "" {
-		if extra := extraErrs(ref.Errors, all); len(extra) > 0 {
+		if extra := extraErrs(collapsed(ref.Errors, all), all); len(extra) > 0 {
 			rc.Fail("errors-not-in-plain-result", "extra-errors", "errors %q are not reported by the plain execution\n%s", extra, desc())
 			return info, false
 		}
